@@ -42,6 +42,33 @@ package ice
 //@   ensures C09 fresh-open-socket-or-none: (err == nil ==> result0 != nil && result0.gClosed == 0 && !result0.gHeld) && (err != nil ==> result0 == nil)
 //@   ensures inverted-range-is-refused: old(lAddr.Port) == 0 && !(portMin == 0 && portMax == 0) && ite(portMin == 0, 1024, portMin) > ite(portMax == 0, 65535, portMax) ==> result0 == nil && err != nil
 
+// The effective network-type set: an empty configured list means all four types.
+//@ spec macro effectiveNetworkTypes(cfg []NetworkType, eff []NetworkType) = (len(cfg) != 0 ==> eff == cfg) && (len(cfg) == 0 ==> len(eff) == 4 && eff[0] == NetworkTypeUDP4 && eff[1] == NetworkTypeUDP6 && eff[2] == NetworkTypeTCP4 && eff[3] == NetworkTypeTCP6)
+
+//@ func configuredNetworkTypes
+//@   props C18
+//@   modifies nothing
+//@   ensures empty-means-all-else-as-configured: effectiveNetworkTypes(networkTypes, result)
+
+// Every gatherer that iterates network types is started with the effective set.
+//@ func (*Agent).gatherCandidatesInternal$1
+//@   props C18
+//@   site call gatherCandidatesLocal#1 assert host-gatherer-gets-the-effective-network-types: arg1 == ctx && effectiveNetworkTypes(a.networkTypes, arg2)
+
+//@ func (*Agent).gatherServerReflexiveCandidates$1
+//@   props C18
+//@   site call gatherCandidatesSrflxUDPMux#1 assert srflx-mux-gatherer-gets-the-effective-network-types: arg1 == ctx && effectiveNetworkTypes(a.networkTypes, arg3)
+//@   site call gatherCandidatesSrflx#1 assert srflx-gatherer-gets-the-effective-network-types: arg1 == ctx && effectiveNetworkTypes(a.networkTypes, arg3)
+
+//@ func (*Agent).gatherServerReflexiveCandidates$2
+//@   props C18
+//@   site call gatherCandidatesSrflxMapped#1 assert mapped-srflx-gatherer-gets-the-effective-network-types: arg1 == ctx && effectiveNetworkTypes(a.networkTypes, arg2)
+
+//@ enumerate C18 calls ice.(*Agent).gatherCandidatesLocal in (*Agent).gatherCandidatesInternal
+//@ enumerate C18 calls ice.(*Agent).gatherCandidatesSrflx in (*Agent).gatherServerReflexiveCandidates
+//@ enumerate C18 calls ice.(*Agent).gatherCandidatesSrflxUDPMux in (*Agent).gatherServerReflexiveCandidates
+//@ enumerate C18 calls ice.(*Agent).gatherCandidatesSrflxMapped in (*Agent).gatherServerReflexiveCandidates
+
 // Cycle control (runs on the agent loop).
 //@ func (*Agent).GatherCandidates$1
 //@   props C18
